@@ -29,7 +29,7 @@ import (
 var c01wsNames = []string{"main.journal", "b.journal", "c.journal"}
 
 type C01WSOp struct {
-	Op      string `json:"op"` // open | change | close
+	Op      string `json:"op"` // open | change | close | save (the client writes the buffer to the file, then didSave)
 	Doc     int    `json:"doc"`
 	Version int    `json:"version"`           // text version of the document after the op (open/change)
 	IncC    bool   `json:"inc_c,omitempty"`   // main.journal only: whether it includes c.journal in this version
@@ -165,6 +165,17 @@ func c01wsCheck(c *C01WSCase) (ds []ev.Discrepancy, classes []string) {
 			}
 			st.open[d] = false
 			_ = h.Close(uris[d])
+		case "save":
+			if !st.open[d] {
+				gate.release()
+				continue
+			}
+			if st.text[d] != st.disk[d] {
+				cls["save-changes-file-on-disk"] = true
+			}
+			st.disk[d] = st.text[d]
+			_ = os.WriteFile(filepath.Join(dir, c01wsNames[d]), []byte(st.disk[d]), 0o644)
+			_ = h.Save(uris[d])
 		}
 		if op.Probe == "" || !st.open[op.From] {
 			gate.release()
@@ -247,10 +258,12 @@ func genC01WS(t *rapid.T) *C01WSCase {
 		case rapid.IntRange(0, 3).Draw(t, "close") == 0:
 			op.Op = "close"
 			open[d] = false
+		case rapid.IntRange(0, 4).Draw(t, "save") == 0:
+			op.Op = "save"
 		default:
 			op.Op, op.Version = "change", s+1
 		}
-		if d == 0 && op.Op != "close" {
+		if d == 0 && op.Op != "close" && op.Op != "save" {
 			if rapid.IntRange(0, 2).Draw(t, "toggle") == 0 {
 				incC = !incC
 			}
